@@ -27,6 +27,12 @@ pub fn successive_main() {
             (r1 + r2, p1)
         })
     });
+    let both = both.and_then(|(r1, mut p1)| {
+        tc::tee_release_check().map(|(r2, p2)| {
+            p1.extend(p2);
+            (r1 + r2, p1)
+        })
+    });
     match both {
         Ok((runs, problems)) => {
             let ps: Vec<Value> = problems.iter().map(|(k, w)| json!([k, w])).collect();
